@@ -10,4 +10,6 @@ cd spec
 for f in *.tla; do
   java -cp /opt/veriftools/tla/tla2tools.jar:/opt/veriftools/tla/CommunityModules-deps.jar tla2sany.SANY "$f" >/dev/null 2>&1 || { echo "SANY failed: $f"; exit 1; }
 done
+cd ..
+/venv/bin/python tools/selftest.py || { echo "trace-spec self-test failed"; exit 1; }
 echo "setup ok"
